@@ -135,7 +135,7 @@ def _drive(cfg, part, dom, n, T, prm, P, RU, D, box, before, rng):
             r = cfg["rewards"][i] / RU
         else:
             r = grid_reward(cfg["pattern"], rnd, RU, pt, box)
-        rec.recv(t0 + i, r, rcode=int(round(r * RU)))
+        rec.recv(t0 + i, R.cast_reward(r, cfg.get("rtype")), rcode=int(round(r * RU)))
         if rec.failed:
             break
     if not rec.failed and cfg.get("glp", True):
